@@ -31,6 +31,7 @@ def dispatch (line : String) : String :=
   | "schedmon" :: args => C11.schedmonOp args
   | "depcheck" :: args => C20.depcheck args
   | "flightlog" :: args => C14.flightlog args
+  | "flightrun" :: args => C14.flightrun args
   | "gitfold" :: args => C03.gitfold args
   | "c03states" :: args => C03.states args
   | "c03wf" :: args => C03.wf args
